@@ -31,9 +31,13 @@ Record dopts := {
   o_flush : Z; o_reconn : Z; o_connbuf : Z; o_iobuf : Z; o_spool : bool; o_spoolbuf : Z; o_maxbytes : Z;
   o_syncevery : Z; o_syncperiod : Z; o_spoolsleep : Z; o_unspoolsleep : Z }.
 
+(* grafanaNet route options as written in the command (defaults when absent) *)
+Record gnopts := { g_concurrency : Z; g_bufsize : Z; g_flushmaxnum : Z; g_flushmaxwait : Z; g_timeout : Z; g_orgid : Z; g_backoffmin : Z }.
+
 Inductive param :=
 | PAgg (has_regex : bool) (interval wait : Z)
-| PRoute (t : rtype) (ds : list dopts).
+| PRoute (t : rtype) (ds : list dopts)
+| PGn (o : gnopts).
 
 (* strconv.Atoi on a run of digits *)
 Definition atoi_ok (z : Z) : bool := (0 <=? z) && (z <=? 9223372036854775807).
@@ -54,6 +58,10 @@ Definition accepts (p : param) : bool :=
       atoi_ok interval && atoi_ok wait && has_regex && (1 <=? interval) && (interval <=? 9223372036)
   | PRoute t ds =>
       forallb dest_accepts ds && match t with RHash => (2 <=? Z.of_nat (length ds)) | _ => true end
+  | PGn o =>
+      forallb atoi_ok [g_concurrency o; g_bufsize o; g_flushmaxnum o; g_flushmaxwait o; g_timeout o; g_orgid o; g_backoffmin o]
+      && (1 <=? g_orgid o) && (1 <=? g_concurrency o) && (g_concurrency o <=? 65536)
+      && (0 <=? g_bufsize o) && (g_bufsize o <=? maxint32)
   end.
 
 (* ---- what runs later with the accepted values ---- *)
@@ -70,4 +78,8 @@ Definition runs_ok (p : param) : bool :=
   match p with
   | PAgg _ interval _ => aligned_tick_ok (dur interval second)
   | PRoute t ds => forallb dest_runs_ok ds && match t with RHash => negb (Nat.eqb (length ds) 0) | _ => true end
+  | PGn o =>
+      negb (g_concurrency o =? 0)                                       (* Dispatch: hash mod Concurrency; BufSize / Concurrency *)
+      && (0 <=? g_concurrency o) && (g_concurrency o * 8 <=? max_alloc)   (* make([]chan []byte, Concurrency) *)
+      && make_chan_ok (g_bufsize o / g_concurrency o)                    (* make(chan []byte, BufSize/Concurrency) *)
   end.
